@@ -180,10 +180,18 @@ def main():
             seen = set()
             reused = 0
             rounds = job.get("rounds", 6)
+            shared = os.path.join(tmp, "shared")
             for rnd in range(rounds):
                 for path in job["schemas"]:
                     for g in GENS:
-                        res = parse(path)
+                        src = path
+                        if rnd % 2:
+                            # odd rounds: every schema is copied to ONE fixed location first (files edited in place
+                            # between two runs of a long-lived process)
+                            shutil.rmtree(shared, ignore_errors=True)
+                            shutil.copytree(os.path.dirname(path), shared)
+                            src = os.path.join(shared, os.path.basename(path))
+                        res = parse(src)
                         if res.is_err():
                             m = {"<error>": repr(res.err())[:200]}
                         else:
